@@ -103,6 +103,9 @@ Failing(e) ==
     (IF Len(cOut') >= 1 => res.ct = 0 /\ res.ctimers = 0 THEN {} ELSE {"NoResidue"}) \cup
     \* at quiescence neither side holds a transaction, a timer or a deferred call
     (IF Quiescent' => res.ct = 0 /\ res.st = 0 /\ res.timers = 0 /\ res.deferred = 0 THEN {} ELSE {"NoResidue"}) \cup
+    \* a request the harness built to be within what the peer is known to accept (trace field "feasible", an input) is
+    \* taken on: the submission puts a frame on the wire and is not answered with a local refusal
+    (IF (e.ev = "Submit" /\ Traces[tid].feasible) => (cOut' = <<>> /\ tx' # <<>>) THEN {} ELSE {"RefusedThoughFeasible"}) \cup
     (IF e.exc = "" THEN {} ELSE {})
 
 Step ==
